@@ -635,7 +635,7 @@ Proof.
   destruct r; try discriminate Hn. exact Hs.
 Qed.
 
-(** the code before a99379d: "giving up" after the horizon was reported as success — the loop
+(** the code before 9155753: "giving up" after the horizon was reported as success — the loop
     returned nil although every attempt had failed *)
 Theorem giving_up_returned_nil_orig_refuted : exists iv maxd calls atts r te,
   iv <> [] /\ all_positive iv = true /\
